@@ -55,7 +55,7 @@ def _pool(t):
     if k == "int":
         return [{"t": "int", "v": x} for x in L.INTS]
     if k == "float":
-        return [{"t": "float", "v": repr(float(x))} for x in L.FLOATS]
+        return [{"t": "float", "v": repr(float(x))} for x in L.FLOATS + ["-0.0"]]      # the sign of zero must survive (compared by repr)
     if k == "str":
         return [{"t": "str", "v": x} for x in L.STRS]
     if k == "bool":
@@ -298,6 +298,97 @@ def intended(node):
     return [[f["name"], f["value"] if "ty" in f else ({"t": "none"} if _absent(f) else intended(f["cls"]))] for f in node["fields"]]
 
 
+def _tree_of_obj(v, ns):
+    """a dataclass instance -> [[name, canonical value | subtree]]; every nested dataclass must be an instance of the class declared in
+    THIS case's namespace (class names repeat from case to case), every path exactly a pathlib.Path"""
+    import dataclasses
+    import pathlib
+
+    from implutil import canon
+
+    out = []
+    for f in dataclasses.fields(v):
+        try:
+            a = getattr(v, f.name)
+        except AttributeError:
+            out.append([f.name, {"t": "unset"}])
+            continue
+        if dataclasses.is_dataclass(a) and not isinstance(a, type):
+            if ns.get(type(a).__name__) is not type(a):
+                out.append([f.name, {"t": "other", "c": type(a).__name__ + "!not-the-declared-class", "v": ""}])
+            else:
+                out.append([f.name, _tree_of_obj(a, ns)])
+        else:
+            c = canon(a)
+            out.append([f.name, _mark_paths(a, c)])
+    return out
+
+
+def _mark_paths(a, c):
+    import pathlib
+    if isinstance(a, pathlib.PurePath) and type(a) is not type(pathlib.Path()):
+        return {"t": "other", "c": "path!" + type(a).__name__, "v": str(a)}
+    if isinstance(a, (list, tuple)) and isinstance(c.get("v"), list):
+        return dict(c, v=[_mark_paths(x, y) for x, y in zip(a, c["v"])])
+    return c
+
+
+def _foreign(c):
+    """the canonical value carries a not-the-declared-class mark (on itself or on an item)"""
+    if not isinstance(c, dict):
+        return False
+    if "!" in str(c.get("c", "")) and c.get("t") in ("enum", "other"):
+        return True
+    return isinstance(c.get("v"), list) and any(_foreign(x) for x in c["v"])
+
+
+def _read_back(path, fmt):
+    """the document in the file -> {"d": {key: sub}} for mappings, implutil.canon for everything else (key order is not kept: yaml.dump sorts)"""
+    from implutil import canon
+
+    if fmt == "json":
+        import json
+        doc = json.load(open(path))
+    elif fmt == "pkl":
+        import pickle
+        doc = pickle.load(open(path, "rb"))
+    else:
+        import yaml
+        doc = yaml.safe_load(open(path))
+
+    def norm(x):
+        if isinstance(x, dict):
+            return {"d": {str(k): norm(v) for k, v in x.items()}}
+        return canon(x)
+    return norm(doc)
+
+
+def _enc(v):
+    """the primitive save() is expected to write for a value (Enum -> name, Path -> str, tuple / list -> list)"""
+    if v["t"] in ("enum", "path"):
+        return {"t": "str", "v": v["v"]}
+    if v["t"] in ("list", "tuple"):
+        return {"t": "list", "v": [_enc(x) for x in v["v"]]}
+    return {k: x for k, x in v.items() if k != "c"}
+
+
+def expected_doc(node):
+    return {"d": {f["name"]: (_enc(f["value"]) if "ty" in f else ({"t": "none"} if _absent(f) else expected_doc(f["cls"])))
+                  for f in node["fields"]}}
+
+
+def _file_at(case, obs, path):
+    """what the file holds at a dotted field path: a canonical value, a {"d": ..} section, or "<missing>" """
+    doc = obs.get("file")
+    if case["api"] == "ap":
+        doc = (doc or {}).get("d", {}).get("cfg") if isinstance(doc, dict) else None
+    for part in path.split("."):
+        if not isinstance(doc, dict) or "d" not in doc or part not in doc["d"]:
+            return "<missing>"
+        doc = doc["d"][part]
+    return doc
+
+
 def _tree_of(canon_dc):
     """implutil.canon of a dataclass instance -> [[name, canon value | subtree]]"""
     out = []
@@ -313,7 +404,7 @@ def _tree_of(canon_dc):
 def run_impl(cases):
     import shutil
 
-    from implutil import canon, outcome_of, reset_simple_parsing_state
+    from implutil import canon, outcome_of, reset_simple_parsing_state, set_current_ns
 
     scratch = os.path.join(WORK, f"C15-files-{os.getpid()}")
     os.makedirs(scratch, exist_ok=True)
@@ -334,9 +425,10 @@ def run_impl(cases):
 
                     if si == 0:
                         exec(compile(source(case), "<c15>", "exec", dont_inherit=True), ns)
+                    set_current_ns(ns)          # canon: an Enum member of a same-named class of another case is not the declared type
                     root = ns[schema["cname"]]
                     x = eval(compile(instance_src(schema), "<c15-inst>", "eval", dont_inherit=True), ns)
-                    st["built"] = _tree_of(canon(x))
+                    st["built"] = _tree_of_obj(x, ns)
                     st["stage"] = "save"
                     if case["api"] == "parse":
                         if case["saver"] == "method":
@@ -345,6 +437,8 @@ def run_impl(cases):
                             save(x, path)
                     else:
                         save({"cfg": x.to_dict() if case["saver"] == "method" else to_dict(x)}, path)
+                    # what save() wrote, read back by the harness itself (json / yaml / pickle directly, not through the library)
+                    st["file"] = _read_back(path, case["fmt"])
                     st["stage"] = "parse"
                     # a fresh parser for every parse
                     if case["api"] == "parse":
@@ -361,15 +455,18 @@ def run_impl(cases):
                             p = ArgumentParser(add_config_path_arg=True)
                             p.add_arguments(root, "cfg")
                             got = p.parse_args(["--config_path", path]).cfg
-                    c = canon(got)
-                    if c.get("t") != "dc" or c.get("c") != schema["cname"]:
-                        return {"t": "other", "c": str(c.get("c")), "v": str(c)[:200]}
-                    return _tree_of(c)
+                    if type(got) is not root:       # the declared CLASS, not a same-named one
+                        c = canon(got)
+                        same_name = type(got).__name__ == root.__name__
+                        return {"t": "other", "c": str(c.get("c")) + ("!not-the-declared-class" if same_name else ""), "v": str(c)[:200]}
+                    st["eq"] = bool(got == x)       # the statement's own notion: the dataclass __eq__
+                    return _tree_of_obj(got, ns)
 
                 reset_simple_parsing_state()
                 r = outcome_of(go)
                 obs_steps.append({"stage": st["stage"], "built_ok": st.get("built") == intended(schema),
                                   "outcome": r[:2] if r[0] != "ok" else ["ok"], "inst": r[1] if r[0] == "ok" else None,
+                                  "eq": st.get("eq"), "file": st.get("file"),
                                   "msg": (r[2][:200] if len(r) > 2 and isinstance(r[2], str) else "") if r[0] != "ok" else ""})
             try:
                 os.remove(path)
@@ -416,61 +513,88 @@ def _diffs(node, got, path=""):
     return out
 
 
-def _spec_step(case, schema, obs):
+KNOWN_CLASSES = ("null-saved:definition-default-back", "items-stay-str:enum", "items-stay-str:path", "items-stay-str:enum+path")
+
+
+def _findings_step(case, schema, obs):
+    """every way in which one step's observation violates the property: [(signature, reason)], in field order.
+    A signature names a CAUSE only when the observation carries the evidence for it; the bare symptom gets a `leaf:` signature."""
+    where = f"[{case['fmt']}, {case['via']}, {case['api']}, {case['saver']}]"
     if not obs["built_ok"] and obs["stage"] != "build":
-        return "harness: the instance built from the generated source is not the intended one"
+        return [("harness:instance-not-built", "harness: the instance built from the generated source is not the intended one")]
     if obs["outcome"][0] != "ok":
-        return f"{obs['stage']} ended with {obs['outcome']} ({obs['msg']}) [{case['fmt']}, {case['via']}, {case['api']}]"
-    d = _diffs(effective(schema), obs["inst"])
-    if d:
-        p, f, g = d[0]
+        sig = f"{obs['stage']}:" + ":".join(str(x) for x in obs["outcome"][:2])
+        if obs["stage"] == "parse" and obs["outcome"][:2] == ["raise", "TypeError"] and "'NoneType' object is not iterable" in obs["msg"] \
+                and _absent_member_with_bare_tuple(schema):
+            sig = "none-member:tuple-field-without-default:TypeError"
+        return [(sig, f"{obs['stage']} ended with {obs['outcome']} ({obs['msg']}) {where}")]
+    out = []
+    for p, f, g in _diffs(effective(schema), obs["inst"]):
         if f is None:
             if g == {"t": "none"}:
-                return (f"member {p} (Optional[Class] = None) was saved holding an instance and came back as None "
-                        f"[{case['fmt']}, {case['via']}, {case['api']}]")
-            return f"returned object has the wrong shape at {p!r}: {str(g)[:200]}"
-        return (f"field {p}: {L.annotation(f['ty'])} (effective definition default {f['default']}) was saved as {f['value']} and came back as {g} "
-                f"[{case['fmt']}, {case['via']}, {case['api']}]")
-    return None
+                out.append(("optional-member:instance->none",
+                            f"member {p} (Optional[Class] = None) was saved holding an instance and came back as None {where}"))
+            elif isinstance(g, dict) and "!not-the-declared-class" in str(g.get("c")):
+                out.append((("member" if p else "instance") + ":not-the-declared-class",
+                            f"{'member ' + p if p else 'the returned object'} is an instance of another class of the same name: {str(g)[:160]} {where}"))
+            else:
+                out.append(("wrong-shape" if isinstance(g, list) or g.get("t") != "dc" else "optional-member:none->instance",
+                            f"returned object has the wrong shape at {p!r}: {str(g)[:200]}"))
+            continue
+        t, v = f["ty"], f["value"]
+        in_file = _file_at(case, obs, p)
+        file_ok = in_file == _enc(v)
+        reason = (f"field {p}: {L.annotation(t)} (effective definition default {f['default']}) was saved as {v} and came back as {g}; "
+                  f"the file holds {in_file} {where}")
+        sig = "leaf:" + _shape(t) + ":" + v["t"] + "->" + str(g.get("t"))
+        if _foreign(g):
+            sig = "leaf:" + _shape(t) + ":not-the-declared-class"
+        elif v["t"] == "none" and t["k"] == "opt" and f["default"] is not None and f["default"].get("t") != "none" and g == f["default"]:
+            # the unset-sentinel defect: the file DOES hold null for the key, and exactly the (effective) definition default comes back
+            sig = "null-saved:definition-default-back" if in_file == {"t": "none"} else \
+                "null-saved:definition-default-back:file-holds-" + (in_file if isinstance(in_file, str) else str(in_file.get("t", "section")))
+        elif v["t"] in ("list", "tuple") and g.get("t") == v["t"] and len(g["v"]) == len(v["v"]):
+            pairs = [(a, b) for a, b in zip(v["v"], g["v"]) if a != b]
+            # the items-not-converted defect: the file holds the str encodings, and exactly those come back, in order, in the right container
+            if pairs and all(a["t"] in ("enum", "path") and b == {"t": "str", "v": a["v"]} for a, b in pairs):
+                sig = "items-stay-str:" + "+".join(sorted({a["t"] for a, _ in pairs})) + ("" if file_ok else ":file-differs")
+        out.append((sig, reason))
+    if not out and obs.get("eq") is False:
+        out.append(("same-canonical-form-but-not-equal", f"the returned instance has the saved instance's canonical form but `==` is False {where}"))
+    return out
+
+
+def _findings(case, obs):
+    out = list(_findings_step(case, case["schema"], obs))
+    if case.get("schema2"):
+        o2 = obs["step2"]
+        stale = o2["outcome"][0] == "ok" and o2["inst"] == obs["inst"] and o2["inst"] != intended(case["schema2"])
+        for sig, reason in _findings_step(case, case["schema2"], o2):
+            reason = "second save() to the same path, parsed again in the same process: " + reason
+            if sig in KNOWN_CLASSES:      # the evidence (what the NEW file holds at that key) is part of the signature
+                out.append((sig, reason))
+            elif stale:
+                out.append(("step2:first-instance-back", reason))
+            else:
+                out.append(("step2:" + sig, reason))
+    return out
+
+
+def _verdict(case, obs):
+    """the finding reported for the case: the first one that is not a listed defect class (so that a listed defect in one field cannot
+    hide another defect in a later field or in the second step), else the first"""
+    fs = _findings(case, obs)
+    if not fs:
+        return None
+    for sig, reason in fs:
+        if sig not in KNOWN_CLASSES:
+            return sig, reason
+    return fs[0]
 
 
 def py_spec(case, obs):
-    r = _spec_step(case, case["schema"], obs)
-    if r or not case.get("schema2"):
-        return r
-    r = _spec_step(case, case["schema2"], obs["step2"])
-    if r:
-        return "second save() to the same path, parsed again in the same process: " + r
-    return None
-
-
-def _sig_step(schema, obs):
-    if not obs["built_ok"] and obs["stage"] != "build":
-        return "harness:instance-not-built"
-    if obs["outcome"][0] != "ok":
-        if obs["stage"] == "parse" and obs["outcome"][:2] == ["raise", "TypeError"] and _absent_member_with_bare_tuple(schema):
-            return "none-member:tuple-field-without-default:TypeError"
-        return f"{obs['stage']}:" + ":".join(str(x) for x in obs["outcome"][:2])
-    d = _diffs(effective(schema), obs["inst"])
-    if not d:
-        return "other"
-    p, f, g = d[0]
-    if f is None:
-        if g == {"t": "none"}:
-            return "optional-member:instance->none"
-        return "wrong-shape" if isinstance(g, list) or g.get("t") != "dc" else "optional-member:none->instance"
-    t, v = f["ty"], f["value"]
-    if v["t"] == "none" and t["k"] == "opt" and f["default"] is not None and g == f["default"]:
-        return "null-saved:definition-default-back"
-    if v["t"] in ("list", "tuple") and g.get("t") == v["t"] and len(g["v"]) == len(v["v"]):
-        pairs = [(a, b) for a, b in zip(v["v"], g["v"]) if a != b]
-        # exactly the saved items, with Enum / Path items as their str encodings
-        if pairs and all(a["t"] in ("enum", "path") and b == {"t": "str", "v": a["v"]} for a, b in pairs):
-            return "items-stay-str:" + "+".join(sorted({a["t"] for a, _ in pairs}))
-    return "leaf:" + _shape(t) + ":" + v["t"] + "->" + str(g.get("t"))
-
-
-KNOWN_CLASSES = ("null-saved:", "items-stay-str:", "none-member:")
+    v = _verdict(case, obs)
+    return v[1] if v else None
 
 
 def _bare_tuple_inside(node):
@@ -496,15 +620,8 @@ def _absent_member_with_bare_tuple(node):
 
 
 def signature(case, obs, reason):
-    if _spec_step(case, case["schema"], obs) or not case.get("schema2"):
-        return _sig_step(case["schema"], obs)
-    o2 = obs["step2"]
-    sig = _sig_step(case["schema2"], o2)
-    if sig.startswith(KNOWN_CLASSES):
-        return sig
-    if o2["outcome"][0] == "ok" and o2["inst"] == obs["inst"] and o2["inst"] != intended(case["schema2"]):
-        return "step2:first-instance-back"
-    return "step2:" + sig
+    v = _verdict(case, obs)
+    return v[0] if v else "other"
 
 
 def nontrivial(case, obs):
@@ -566,6 +683,8 @@ def _inst_coq(tree):
             fs.append(cpair(cstr(name), _inst_coq(v)))
         else:
             try:
+                if _foreign(v):            # an instance / member of a same-named class of another case, or a path of another class
+                    raise L.OutOfScope("not the declared class")
                 fs.append(cpair(cstr(name), f"(ILeaf {L.value_coq(v)})"))
             except L.OutOfScope:
                 fs.append(cpair(cstr(name), f"(IOpaque {cstr(str(v.get('t')) + ':' + str(v.get('c', '')))})"))
